@@ -56,6 +56,10 @@ Resolved(r, i, t) ==
 ConvFailed(e) ==
   LET in == e["in"]  t == e.target  r == e.r IN
   (IF \E x \in {r, e.r2, e.back} : ~x.ok /\ Has(x, "fail") /\ x.fail = "panic" THEN {"C08.NoPanic"} ELSE {})
+  \* a conversion obtained once and applied to another value first gives, for this value, what converting it alone gives
+  \* (for unknown parts the conversion function may answer less precisely than Convert's identity short-cut: Admits, not equality)
+  \cup (IF Has(e, "r3") /\ r.ok /\ Ranked(r.val) /\ (e.r3.ok => Ranked(e.r3.val))
+           /\ ~(e.r3.ok /\ Admits(UnmarkDeep(e.r3.val), UnmarkDeep(r.val)) /\ (WhollyKnown(r.val) => e.r3.val = r.val)) THEN {"C08.ConversionIsAFunctionOfItsInput"} ELSE {})
   \* the converted value (and its type) reports the same after the conversions as before
   \cup (IF Has(e, "iv") /\ e.iv # e.iv2 THEN {"C20.Immutable"} ELSE {})
   \cup (IF e.safe = "panic" \/ e.unsafe = "panic" THEN {"C08.NoPanic"} ELSE {})
